@@ -27,7 +27,7 @@ import copy
 # profiles: which alternatives a choice point offers
 # ------------------------------------------------------------------------------------------------
 TABLE_PROFILE = {
-    "kinds": ["insert", "ctas", "view", "bare", "insert_cols", "select_into", "update", "update_from", "merge", "merge_derived", "delete", "truncate"],
+    "kinds": ["insert", "ctas", "view", "bare", "insert_cols", "select_into", "update", "update_from", "merge", "merge_derived", "delete", "truncate", "update_self"],
     "query": ["select", "union", "union3", "with", "with2", "with_recursive"],
     "from": ["one", "join", "comma", "join3", "left_using", "cross", "join_comma", "comma_join", "nested_paren", "paren_join_join", "join_paren_join", "full_outer"],
     "rel": ["base", "base_alias", "qualified", "qualified_alias", "derived", "derived_union", "cte", "cte_alias", "cte_quoted", "base_quoted"],
@@ -39,9 +39,9 @@ TABLE_PROFILE = {
 }
 
 COLUMN_PROFILE = {
-    "kinds": ["insert", "ctas", "insert_cols", "view", "select_into", "update_from", "merge"],
+    "kinds": ["insert", "ctas", "insert_cols", "view", "select_into", "update_from", "merge", "update_self"],
     "query": ["select", "union", "with", "union3"],
-    "from": ["one", "join", "comma", "left_using", "join3"],
+    "from": ["one", "join", "comma", "left_using", "join3", "join_paren_join", "paren_join_join"],
     "rel": ["base", "base_alias", "qualified_alias", "qualified", "derived", "derived_union", "derived_star", "cte", "cte_alias"],
     "where": ["none"],
     "items": ["col", "alias", "func", "arith", "case", "cast", "window", "literal", "star", "qstar", "coalesce2", "window_order", "nested_func", "pgcast"],
@@ -374,6 +374,8 @@ def gen_statement(ch, profile, depth=2):
     if kind == "select_into":
         q = gen_query(ctx, depth, "q", lambda a: a in ("select", "with"))
         return {"kind": "select_into", "target": tgt, "collist": None, "q": q}
+    if kind == "update_self":  # UPDATE t SET a = b : b is a column of t itself
+        return {"kind": "update", "target": tgt, "set": [["k1", ["col", None, "k2"]]], "from": None, "where": gen_pred(ctx, depth, "u.where")}
     if kind in ("update", "update_from"):
         frm = gen_from(ctx, depth, "u.from") if kind == "update_from" else None
         if frm is not None:
@@ -699,6 +701,8 @@ def features(st):
 
     walk_queries(st, q)
     walk_rels(st, r)
+    if st.get("from"):
+        f.add("from:" + st["from"]["shape"])
     return f
 
 
